@@ -38,8 +38,18 @@ const (
 // A ContextTerminationError is an error reserved for when the runtime context
 // should be terminated immediately.
 type ContextTerminationError struct {
-	message string
+	message  string
+	resource terminationResource // the resource whose hard limit was reached (if any)
 }
+
+// terminationResource tells which hard limit caused a context to be terminated.
+type terminationResource uint8
+
+const (
+	noResource terminationResource = iota
+	cpuResource
+	memResource
+)
 
 var _ error = ContextTerminationError{}
 
